@@ -133,23 +133,23 @@ func (r *rep) String() string {
 }
 
 var (
-	tIface   = reflect.TypeOf((*interface{})(nil)).Elem()
-	tBigPtr  = reflect.TypeOf((*big.Int)(nil))
-	tBig     = reflect.TypeOf(big.Int{})
+	tIface       = reflect.TypeOf((*interface{})(nil)).Elem()
+	tBigPtr      = reflect.TypeOf((*big.Int)(nil))
+	tBig         = reflect.TypeOf(big.Int{})
 	tBigFloatPtr = reflect.TypeOf((*big.Float)(nil))
 	tBigFloat    = reflect.TypeOf(big.Float{})
-	tFloat32 = reflect.TypeOf(float32(0))
-	tFloat64 = reflect.TypeOf(float64(0))
-	tTime    = reflect.TypeOf(time.Time{})
-	tDur     = reflect.TypeOf(time.Duration(0))
-	tIP      = reflect.TypeOf(net.IP{})
-	tUUID    = reflect.TypeOf(primitive.UUID{})
-	tDecimal = reflect.TypeOf(datacodec.CqlDecimal{})
-	tCqlDur  = reflect.TypeOf(datacodec.CqlDuration{})
-	tBytes   = reflect.TypeOf([]byte{})
-	tRunes   = reflect.TypeOf([]rune{})
-	tString  = reflect.TypeOf("")
-	tArr16   = reflect.TypeOf([16]byte{})
+	tFloat32     = reflect.TypeOf(float32(0))
+	tFloat64     = reflect.TypeOf(float64(0))
+	tTime        = reflect.TypeOf(time.Time{})
+	tDur         = reflect.TypeOf(time.Duration(0))
+	tIP          = reflect.TypeOf(net.IP{})
+	tUUID        = reflect.TypeOf(primitive.UUID{})
+	tDecimal     = reflect.TypeOf(datacodec.CqlDecimal{})
+	tCqlDur      = reflect.TypeOf(datacodec.CqlDuration{})
+	tBytes       = reflect.TypeOf([]byte{})
+	tRunes       = reflect.TypeOf([]rune{})
+	tString      = reflect.TypeOf("")
+	tArr16       = reflect.TypeOf([16]byte{})
 )
 
 // isBigPtr: *big.Int and *big.Float are accepted as they are (the pointer is the representation; a pointer to them is not accepted)
@@ -225,7 +225,6 @@ func zOf(a *aval) *big.Int { return a.z }
 
 var always = func(a *aval) bool { return true }
 
-
 var dateLo, dateHi = time.Date(1, 1, 1, 0, 0, 0, 0, time.UTC).Unix() / 86400, time.Date(9999, 12, 31, 0, 0, 0, 0, time.UTC).Unix() / 86400
 
 func scalarReps(s string) []*srep {
@@ -273,21 +272,36 @@ func scalarReps(s string) []*srep {
 			{"*big.Float", tBigFloatPtr, func(a *aval) bool { return !math.IsNaN(f64(a)) }, func(a *aval) interface{} { return new(big.Float).SetFloat64(f64(a)) }},
 		}
 	case "SDate":
+		dateUTC := func(a *aval) time.Time { return time.Unix(a.z.Int64()*86400, 0).UTC() }
 		rs := []*srep{
-			{"time.Time", tTime, always, func(a *aval) interface{} { return time.Unix(a.z.Int64()*86400, 0).UTC() }},
+			{"time.Time", tTime, always, func(a *aval) interface{} { return dateUTC(a) }},
 			{"string(layout)", tString, func(a *aval) bool { return a.z.Int64() >= dateLo && a.z.Int64() <= dateHi },
-				func(a *aval) interface{} { return time.Unix(a.z.Int64()*86400, 0).UTC().Format("2006-01-02") }},
+				func(a *aval) interface{} { return dateUTC(a).Format("2006-01-02") }},
 		}
+		rs = append(rs, inZones(always, dateUTC)...)
+		// the instant need not be midnight UTC: the last nanosecond of the UTC day, seen from a zone where it is already the next day
+		rs = append(rs, &srep{"time.Time(23:59:59.999999999Z at +14:00)", tTime, always, func(a *aval) interface{} {
+			return dateUTC(a).Add(24*time.Hour - 1).In(zones[2])
+		}})
 		return append(rs, intReps(zOf)...)
 	case "STime":
 		inRange := func(a *aval) bool { return a.z.Sign() >= 0 && a.z.Cmp(big.NewInt(86399999999999)) <= 0 }
+		timeUTC := func(a *aval) time.Time {
+			return time.Date(0, 1, 1, 0, 0, 0, 0, time.UTC).Add(time.Duration(a.z.Int64()))
+		}
 		rs := []*srep{
 			{"time.Duration", tDur, inRange, func(a *aval) interface{} { return time.Duration(a.z.Int64()) }},
-			{"time.Time", tTime, inRange, func(a *aval) interface{} { return time.Date(0, 1, 1, 0, 0, 0, 0, time.UTC).Add(time.Duration(a.z.Int64())) }},
+			{"time.Time", tTime, inRange, func(a *aval) interface{} { return timeUTC(a) }},
+			{"string(layout)", tString, inRange, func(a *aval) interface{} { return timeUTC(a).Format("15:04:05.999999999") }},
 		}
+		rs = append(rs, inZones(inRange, timeUTC)...)
+		// the date part is irrelevant: a present-day instant in a western zone
+		rs = append(rs, &srep{"time.Time(2024 at -08:00)", tTime, inRange, func(a *aval) interface{} {
+			return time.Date(2024, 2, 29, 0, 0, 0, 0, time.UTC).Add(time.Duration(a.z.Int64())).In(zones[1])
+		}})
 		return append(rs, intReps(zOf)...)
 	case "STimestamp":
-		rs := []*srep{{"time.Time", tTime, always, func(a *aval) interface{} {
+		tsUTC := func(a *aval) time.Time {
 			ms := a.z.Int64()
 			sec := ms / 1000
 			rem := ms % 1000
@@ -296,7 +310,16 @@ func scalarReps(s string) []*srep {
 				sec--
 			}
 			return time.Unix(sec, rem*1000000).UTC()
-		}}}
+		}
+		inLayout := func(a *aval) bool { return a.z.IsInt64() && a.z.Int64() >= tsLo && a.z.Int64() <= tsHi }
+		rs := []*srep{{"time.Time", tTime, always, func(a *aval) interface{} { return tsUTC(a) }}}
+		rs = append(rs, inZones(always, tsUTC)...)
+		// strings in the codec's default layout, which carries an explicit zone offset
+		rs = append(rs, &srep{"string(layout,Z)", tString, inLayout, func(a *aval) interface{} { return tsUTC(a).Format(tsLayout) }})
+		for _, z := range zones[:3] {
+			z := z
+			rs = append(rs, &srep{"string(layout," + z.String() + ")", tString, inLayout, func(a *aval) interface{} { return tsUTC(a).In(z).Format(tsLayout) }})
+		}
 		return append(rs, intReps(zOf)...)
 	case "SDecimal":
 		return []*srep{{"CqlDecimal", tDecimal, always, func(a *aval) interface{} {
@@ -353,6 +376,33 @@ func scalarReps(s string) []*srep {
 	}
 	panic("scalarReps " + s)
 }
+
+// zones: the locations every time.Time representation is generated in (besides UTC): fixed offsets east and west of UTC, with half hours,
+// beyond +12, and named zones when the tz database is installed (their offsets for year 0 / early dates are local mean times with seconds).
+// The abstract value of a time.Time is that of the INSTANT: its UTC date, UTC nanos-of-day, epoch milliseconds - the same in every location.
+var zones = func() []*time.Location {
+	zs := []*time.Location{time.FixedZone("+05:30", 5*3600+1800), time.FixedZone("-08:00", -8*3600), time.FixedZone("+14:00", 14*3600)}
+	for _, n := range []string{"America/New_York", "Asia/Kolkata"} {
+		if l, err := time.LoadLocation(n); err == nil {
+			zs = append(zs, l)
+		}
+	}
+	return zs
+}()
+
+// inZones: the time.Time representation mkUTC again, once per zone: the same instant, another wall clock (and often another calendar day)
+func inZones(ok func(a *aval) bool, mkUTC func(a *aval) time.Time) []*srep {
+	var rs []*srep
+	for _, z := range zones {
+		z := z
+		rs = append(rs, &srep{"time.Time(" + z.String() + ")", tTime, ok, func(a *aval) interface{} { return mkUTC(a).In(z) }})
+	}
+	return rs
+}
+
+const tsLayout = "2006-01-02T15:04:05.999999999-07:00" // datacodec.TimestampLayoutDefault
+
+var tsLo, tsHi = time.Date(1, 1, 2, 0, 0, 0, 0, time.UTC).UnixMilli(), time.Date(9999, 12, 30, 0, 0, 0, 0, time.UTC).UnixMilli()
 
 var identRe = regexp.MustCompile(`^[a-z][a-z0-9]{0,5}$`)
 
@@ -722,7 +772,9 @@ func abs(t *ctype, v reflect.Value) (res *aval) {
 			return aNull
 		}
 	}
-	bad := func() *aval { return &aval{kind: "bytes", bs: []byte(fmt.Sprintf("UNABSTRACTABLE %s as %s", v.Type(), t.coq()))} }
+	bad := func() *aval {
+		return &aval{kind: "bytes", bs: []byte(fmt.Sprintf("UNABSTRACTABLE %s as %s", v.Type(), t.coq()))}
+	}
 	switch t.kind {
 	case "scalar":
 		switch t.scalar {
@@ -788,6 +840,11 @@ func abs(t *ctype, v reflect.Value) (res *aval) {
 				tm := v.Interface().(time.Time).UTC()
 				return aInt64(int64(tm.Nanosecond()) + int64(tm.Second())*1e9 + int64(tm.Minute())*60e9 + int64(tm.Hour())*3600e9)
 			}
+			if v.Kind() == reflect.String {
+				if tm, err := time.Parse("15:04:05.999999999", v.String()); err == nil {
+					return aInt64(int64(tm.Nanosecond()) + int64(tm.Second())*1e9 + int64(tm.Minute())*60e9 + int64(tm.Hour())*3600e9)
+				}
+			}
 			if z, ok := bigOfKind(v); ok {
 				return aInt(z)
 			}
@@ -797,6 +854,11 @@ func abs(t *ctype, v reflect.Value) (res *aval) {
 				z := new(big.Int).Mul(big.NewInt(tm.Unix()), big.NewInt(1000))
 				z.Add(z, big.NewInt(int64(tm.Nanosecond()/1000000)))
 				return aInt(z)
+			}
+			if v.Kind() == reflect.String {
+				if tm, err := time.Parse(tsLayout, v.String()); err == nil {
+					return aInt64(tm.UnixMilli())
+				}
 			}
 			if z, ok := bigOfKind(v); ok {
 				return aInt(z)
